@@ -533,13 +533,38 @@ class Prop:
     technique = ("Lean 4 invariant proofs over a model of Connector+TcpClient whose constants, delay update, errno table, "
                  "state tests and destructor branches are re-extracted from /repo (T1) + differential run of the real "
                  "TcpClient in a stepped EventLoop under a virtual clock with scripted/recorded socket results (T2)")
-    level_text = ("Kernel-checked theorems over all histories inside the property's quantifier and all environment results: "
-                  "back-off schedule per cycle, at most one UP per cycle, reconnect iff retry_&&connect_, no UP after stop(), "
-                  "disconnect() half-closes, every socket handed over xor closed exactly once, destruction on the loop thread "
-                  "is safe; the model is tied to the code by T1 and by a differential run in two build flavours; an independent "
-                  "oracle evaluates the property on the implementation's own traces")
-    level_note = ("Destruction from a foreign thread concurrent with connector/connection activity is unsafe in the code "
-                  "(its own FIXMEs): known finding F11, model-level witness, theorem destroy_safe_inloop is `_partial`.")
+    level_text = ("Kernel-checked theorems (Props/C12.lean; lemmas Proofs/Client*.lean) over ALL histories inside the scope "
+                  "guard `Guarded` (a decidable predicate on histories), all poller reports, all connect()/SO_ERROR/"
+                  "self-connect/readv results, both build flavours: an invariant `Mid` of the model is preserved by every "
+                  "function, loop iteration and user operation (`reach_bnd`); it says that the event trace is accepted by a "
+                  "model-independent specification automaton (`scan`) whose summary matches the state. Unfolded: `no_abort` "
+                  "(no assertion failure, no use of a destroyed object, never dead); `socket_once` + `no_leak_quiescent` + "
+                  "`no_conn_leak` (every socket created once, handed over xor closed exactly once except the one attempt in "
+                  "progress; ~TcpConnection closes a descriptor at most once and only after DOWN after UP after hand-over; "
+                  "after an iteration every live connection object is still referred to); `backoff` + "
+                  "`backoff_cycle_starts_at_500` + `backoff_timer` (i-th retry of a cycle: min(500*2^i,30000) ms, timer armed "
+                  "at failure+delay, not fired before due; every cycle starts at 500 ms); `one_up_per_cycle`; `retry_policy` "
+                  "(function-level, for every invariant state: new cycle+attempt in the same dispatch iff retry_&&connect_); "
+                  "`stop_silences` (from the moment stop() returns until the next connect(): no attempt, no UP, no retry timer) "
+                  "and `destroyed_silent`; `disconnect_graceful` (connect_ cleared, half-close queued, and performed by the "
+                  "next iteration whatever it dispatches); `destroy_safe_inloop_sockets` (after ~TcpClient on the loop thread, "
+                  "one iteration later no attempt socket is open) and `destroy_safe_inloop_connection` (a connection nobody "
+                  "else holds goes DOWN and is destroyed within two iterations; depends on the generated fact "
+                  "Gen.Conn.shutdownHold = weak, F26). The model is tied to the code by T1 (generated constants, guards, errno "
+                  "table, dispatch choices) and by a differential run of the real TcpClient in two build flavours; an "
+                  "independent oracle evaluates the property on the implementation's own traces")
+    level_note = ("Scope guard (explicit, decidable, `okIn`): connect() only on a live client with no attempt, connection, "
+                  "pending retry timer or queued connect() outstanding; disconnect/stop/enableRetry only on a live client; "
+                  "~TcpClient on the loop thread; the user drops a connection reference only if the connection is down or "
+                  "somebody else holds it (TcpConnection's own contract). Destruction from a foreign thread is outside: "
+                  "`destroy_safe_full` (any thread) is stated as a Prop and refuted on the model (`destroy_safe_full_false`, "
+                  "witness `f11Witness`: connect L; iter; destroy F; iter with the peer's hang-up -> the model's "
+                  "`uaf TcpClient::removeConnection`, because the foreign destructor only queues setCloseCallback): F11, the "
+                  "code's own FIXME, known limitation; the generator keeps foreign destroys to the states where the code is safe. "
+                  "Two ghost additions to the model in this round (not printed by the driver): `Ev.ghost` marks "
+                  "(cycle start, connect(), stop(), ~TcpClient) and, in dispatchConn, a connection whose descriptor is still the "
+                  "connector's channel's (`chan = some k`, until the queued resetChannel) cannot be reported by the poller in the "
+                  "same iteration. `retry_policy`, `backoff_timer` are function-level statements with the invariant as hypothesis.")
     rule = ("histories over {connect, disconnect, stop, enableRetry, destroy, holdRef, dropRef} from the loop thread or a "
             "(joined) foreign thread, interleaved with loop iterations, virtual-clock advances chosen around the retry "
             "deadlines, scripted connect() results from all three classes, SO_ERROR, self-connect, POLLERR injection, peer "
@@ -559,8 +584,11 @@ class Prop:
         "foreign-thread destruction concurrent with loop activity: F11, known finding",
     ]
     partial_theorems = [
-        {"theorem": "destroy_safe_inloop_partial", "hypothesis": "the destructor runs on the loop thread",
-         "finding": "F11: ~TcpClient on a foreign thread can race with callbacks holding the raw client pointer"},
+        {"theorem": "destroy_safe_inloop_sockets / destroy_safe_inloop_connection / no_abort",
+         "hypothesis": "the destructor runs on the loop thread (scope guard `okIn (.destroy w)`: w = Who.loop)",
+         "finding": "F11: ~TcpClient on a foreign thread only queues setCloseCallback; a close event dispatched before that "
+                    "functor calls TcpClient::removeConnection on the destroyed client (model: destroy_safe_full_false, "
+                    "witness f11Witness); the code's own FIXME, known limitation, not generated by the correspondence run"},
     ]
 
     def signature(self, case, kind, desc):
